@@ -16,7 +16,7 @@ from aaverisk_lib import Case, Exact, close, TOL
 
 PROPERTY = "C12"
 LEAN_MODULES = ["Proofs.C12", "Proofs.C12.Loop", "Proofs.C12.Pick", "Proofs.C12.Refine", "Proofs.C12.RefineStep", "Proofs.C12.RefineLoop",
-                "Proofs.C12.DebtCheck", "Proofs.C12.RefineUpdate"]
+                "Proofs.C12.DebtCheck", "Proofs.C12.RefineUpdate", "Proofs.C12.Units"]
 DRIVERS = ["driver_aaverisk"]
 RULE = ("portfolios over the uppercase symbols of the four risk-parameter CSVs: 1-3 collateral supplies (+ optional non-collateral supply), "
         "1-3 debts, liquidity/borrow indices 1..3 different per token, prices log-uniform over 11 decades (1e-6 .. 1e5), debts scaled so that the health factor "
@@ -120,7 +120,7 @@ def gen_case(rng, stream):
     # ---- special shapes
     if stream == "special":
         k = rng.choice(["nodebt", "nocoll", "zero-debt-entry", "lt0", "oversized", "heavy-bonus", "cheap-debt", "price0", "dust-debt", "dust-coll",
-                        "capped-tie", "capped-tie", "dust-left", "dust-left"])
+                        "capped-tie", "capped-tie", "dust-left", "dust-left", "priced-at-cf", "priced-at-cf"])
         tag = k
         if k == "dust-left" and len(collable) >= 2:
             # the first step seizes the whole of the big collateral; a dust collateral (1e-8 .. 1e-14 of it) is left against the rest of
@@ -197,6 +197,14 @@ def gen_case(rng, stream):
                     f = D(10) ** rng.randint(2, 5)
                     toks[d[0]]["p"] = str(D(toks[d[0]]["p"]) / f)
                     d[1] = str(D(d[1]) * f)
+        elif k == "priced-at-cf":
+            # debt tokens priced around the close factors 1/2 and 1 (the value handed in as "amount to cover" is compared with
+            # close factor x amount: which of the two is repaid flips at price = close factor, C12_repaid_token_units); the debts' values stay
+            for d in dl:
+                if d[0] not in colls:
+                    newp = D(rng.choice(["0.3", "0.07", "0.49", "0.5", "0.51", "0.75", "0.99", "1", "1.01"]))
+                    d[1] = str(D(d[1]) * D(toks[d[0]]["p"]) / newp)
+                    toks[d[0]]["p"] = str(newp)
         elif k == "price0":
             n = rng.choice(list(toks))
             toks[n]["p"] = "0"
@@ -390,6 +398,23 @@ def oracle(ctx: Ctx, case: Case, obs, tag):
             cf = F(1, 2) if hfP > F(95, 100) else F(1)
             if repaid > cf * EP.deb_amount(d) * (1 + TOL):
                 out.append(("step.close-factor", f"repaid {float(repaid)} of {float(EP.deb_amount(d))} {d} exceeds close factor {cf} (HF {float(hfP):.6g})"))
+            # units (C12_repaid_token_units): the value to cover (USD) is used as a token amount, so the step repays min(price, close factor)
+            # x amount tokens - at most; exactly when the collateral balance does not cap the seizure.  A debt token priced below the close
+            # factor is repaid price x amount tokens: less than the property allows - an observation, counted, not a violation
+            amt = EP.deb_amount(d)
+            unit_cap = min(pd, cf) * amt
+            uncapped = seized < EP.sup_amount(c) * (1 - TOL)
+            if sane and repaid > unit_cap * (1 + TOL):
+                out.append(("step.token-units-le", f"repaid {float(repaid)} {d} exceeds min(price {float(pd)}, close factor {cf}) x amount {float(amt)}"))
+            if sane and uncapped and not close(repaid, unit_cap):
+                out.append(("step.token-units", f"uncapped step repaid {float(repaid)} {d}, not min(price {float(pd)}, close factor {cf}) x amount {float(amt)} "
+                            f"= {float(unit_cap)}"))
+            if sane and not close(F(D(a.delt_to_cover)), amt * pd):
+                out.append(("step.cover-units", f"delt_to_cover {a.delt_to_cover} is not the debt's amount x price {float(amt * pd)}"))
+            if uncapped:
+                ctx.count("low_priced_debt_repaid_value_units" if pd < cf else "debt_priced_at_or_above_close_factor_repaid_cf_units")
+            elif pd < cf:
+                ctx.count("low_priced_debt_capped_step")
         bal = EP.sup_amount(c)
         if seized > bal * (1 + TOL):
             out.append(("step.seized-exceeds-balance", f"seized {float(seized)} {c} of a balance of {float(bal)}"))
